@@ -2,6 +2,7 @@ package rules
 
 import (
 	"fmt"
+	"go/types"
 	"strings"
 
 	"golang.org/x/tools/go/ssa"
@@ -114,6 +115,10 @@ func loopExits(c *an.Ctx, s *sched, rule string) {
 				if cc, ok := an.IsCallTo(x, "sync/atomic.LoadInt32"); ok && an.FieldKey(cc.Args[0]) == "Scheduler.cancelled" {
 					uses = true
 				}
+				// a bool helper of the package that returns a test of the flag (isCancelled)
+				if _, ok := cancelHelperValue(c.P, x, 1); ok {
+					uses = true
+				}
 			}
 		}
 		walk(br.If.Cond)
@@ -144,8 +149,15 @@ func loopExits(c *an.Ctx, s *sched, rule string) {
 			}
 		}
 		walk(br.If.Cond)
-		v1 := evalWith(c.P, br.If.Cond, map[ssa.Value]an.AVal{atom: an.AInt(1)})
-		v0 := evalWith(c.P, br.If.Cond, map[ssa.Value]an.AVal{atom: an.AInt(0)})
+		a1, a0 := an.AInt(1), an.AInt(0)
+		if ac, ok := atom.(*ssa.Call); ok {
+			if h1, ok := cancelHelperValue(c.P, ac, 1); ok {
+				h0, _ := cancelHelperValue(c.P, ac, 0)
+				a1, a0 = h1, h0
+			}
+		}
+		v1 := evalWith(c.P, br.If.Cond, map[ssa.Value]an.AVal{atom: a1})
+		v0 := evalWith(c.P, br.If.Cond, map[ssa.Value]an.AVal{atom: a0})
 		b1, ok1 := v1.IsBool()
 		b0, ok0 := v0.IsBool()
 		good := ok1 && ok0 && b1 != b0
@@ -262,4 +274,39 @@ func progressPremises(c *an.Ctx, s *sched, rule string) {
 		c.Check(okRet, rule, an.Short(g)+":initial", g.Pos(), "a stage whose dependencies all passed is ready", "cannot establish that the gate yields true when every dependency passed")
 	}
 	_ = fmt.Sprint
+}
+
+// cancelHelperValue evaluates a call of a bool helper of the scheduler
+// package whose single return is an expression over one load of
+// Scheduler.cancelled, for the given value of the flag.
+func cancelHelperValue(p *an.Prog, call *ssa.Call, flag int64) (an.AVal, bool) {
+	g := call.Call.StaticCallee()
+	if g == nil || g.Blocks == nil || !an.InModule(g) || g.Signature.Results().Len() != 1 {
+		return an.AVal{}, false
+	}
+	if b, ok := g.Signature.Results().At(0).Type().Underlying().(*types.Basic); !ok || b.Kind() != types.Bool {
+		return an.AVal{}, false
+	}
+	rets := an.Returns(g)
+	if len(rets) != 1 || len(g.Blocks) != 1 {
+		return an.AVal{}, false
+	}
+	var load *ssa.Call
+	n := 0
+	an.EachInstr(g, func(in ssa.Instruction) {
+		if c2, ok := in.(*ssa.Call); ok {
+			n++
+			if cc, ok := an.IsCallTo(c2, "sync/atomic.LoadInt32"); ok && an.FieldKey(cc.Args[0]) == "Scheduler.cancelled" {
+				load = c2
+			}
+		}
+	})
+	if load == nil || n != 1 {
+		return an.AVal{}, false
+	}
+	v := evalWith(p, an.RetVal(rets[0], 0), map[ssa.Value]an.AVal{load: an.AInt(flag)})
+	if _, ok := v.IsBool(); !ok {
+		return an.AVal{}, false
+	}
+	return v, true
 }
